@@ -85,6 +85,10 @@ def handle (toks : List String) : Option String :=
       let p ← parseRat p
       let S ← parseSpec nd bits f ids
       some (showRes (applyMisid S p))
+  | ["c09.ctor", mc, nd, bits, f, ids] => do
+      let mc ← parseBool mc
+      let S ← parseSpec nd bits f ids
+      some (showRes (.ok (ctorSpec S mc)))
   | "c09.binop" :: name :: nd :: bits :: f :: ids :: rest => do
       let S ← parseSpec nd bits f ids
       let o ← parseOperand rest
